@@ -55,6 +55,35 @@ Fixpoint val_eqb (a b : val) {struct a} : bool :=
   | _, _ => false
   end.
 
+(* Python's == on values: as val_eqb, plus True == 1 and False == 0 (bool is a subclass of int); this is what
+   `in`, dict lookup and Literal's checks use.  val_eqb stays the structural identity used for type equality. *)
+Fixpoint val_pyeq (a b : val) {struct a} : bool :=
+  let fix leq (l1 l2 : list val) {struct l1} : bool :=
+    match l1, l2 with
+    | [], [] => true
+    | x :: xs, y :: ys => val_pyeq x y && leq xs ys
+    | _, _ => false
+    end in
+  let fix deq (l1 l2 : list (val * val)) {struct l1} : bool :=
+    match l1, l2 with
+    | [], [] => true
+    | (k1, v1) :: xs, (k2, v2) :: ys => val_pyeq k1 k2 && val_pyeq v1 v2 && deq xs ys
+    | _, _ => false
+    end in
+  match a, b with
+  | VInt x, VInt y => Z.eqb x y
+  | VInt x, VBool y => Z.eqb x (if y then 1 else 0)%Z
+  | VBool x, VInt y => Z.eqb (if x then 1 else 0)%Z y
+  | VStr x, VStr y => list_eqb Z.eqb x y
+  | VBool x, VBool y => Bool.eqb x y
+  | VNone, VNone => true
+  | VTup x, VTup y => leq x y
+  | VLst x, VLst y => leq x y
+  | VDict x, VDict y => deq x y
+  | VObj c i, VObj d j => Nat.eqb c d && Z.eqb i j
+  | _, _ => false
+  end.
+
 Definition oval_eqb (a b : option val) : bool :=
   match a, b with
   | None, None => true
